@@ -119,6 +119,8 @@ def _compact_case(beh: Dict[str, Any], want_stages: bool, want_events: bool) -> 
     if want_events:
         c["init"] = beh["init"]
         c["events"] = beh["events"]
+        c["ng0"] = beh["ng0"]
+        c["order"] = beh["order"]
     return c
 
 
